@@ -33,6 +33,41 @@ def is_value(obj):
     return isinstance(obj, pbase.Asn1Item) and obj is not pbase.noValue and bool(obj.isValue)
 
 
+def deep_problem(obj, depth=0):
+    """something inside a returned value that is not part of a value: the end-of-octets sentinel, None, a non-ASN.1 object,
+    a valueless element of a SEQUENCE OF / SET OF (absent OPTIONAL slots of records are fine)"""
+    from pyasn1.codec.ber import eoo
+    from pyasn1.type import univ as _u
+    if depth > 60:
+        return None
+    if obj is None or not isinstance(obj, pbase.Asn1Item):
+        return 'holds %r' % (obj,)
+    if isinstance(obj, eoo.EndOfOctets) or obj is eoo.endOfOctets:
+        return 'holds the end-of-octets sentinel'
+    try:
+        if isinstance(obj, (_u.SequenceOf, _u.SetOf)):
+            for i in range(len(obj)):
+                c = obj.getComponentByPosition(i, default=None, instantiate=False)
+                if c is None:
+                    return 'element %d is not a value' % i
+                p = deep_problem(c, depth + 1)
+                if p:
+                    return 'element %d %s' % (i, p)
+        elif isinstance(obj, _u.Choice):
+            if obj.isValue:
+                return deep_problem(obj.getComponent(), depth + 1)
+        elif isinstance(obj, (_u.Sequence, _u.Set)):
+            for i in range(len(obj)):
+                c = obj.getComponentByPosition(i, default=None, instantiate=False)
+                if c is not None:
+                    p = deep_problem(c, depth + 1)
+                    if p:
+                        return 'member %d %s' % (i, p)
+    except error.PyAsn1Error:
+        return None
+    return None
+
+
 def run_oneshot(dec, data, schema):
     s = CountingBytesIO(data)
     try:
@@ -77,6 +112,10 @@ def judge(rep, where, spec_s, cdc, data, r):
             continue
         if not is_value(o):
             rep.fail('not-a-value:' + where, 'decoder returned %r' % (o,), replay)
+            return
+        dp = deep_problem(o)
+        if dp:
+            rep.fail('not-a-value-inside:' + where, 'the returned value %s' % dp, replay)
             return
 
 
@@ -280,7 +319,11 @@ def run(rep, tier, seed):
     # corpus: witnesses of repaired leaks
     for h in ('3000', '30043000 3100'.replace(' ', ''), 'a0800000', '23800300 0000'.replace(' ', ''), '0428' + 'ff' * 40,
               '84ffffffff', '3180318000000000'[:12], '2480240604016104016204016300',
-              '3001020105', '300230020500', 'a00530020201 05'.replace(' ', ''), '308030020201050000 0000'.replace(' ', '')):
+              '3001020105', '300230020500', 'a00530020201 05'.replace(' ', ''), '308030020201050000 0000'.replace(' ', ''),
+              # tag and length octets rewritten to zero at a component boundary of a definite-length container (an
+              # end-of-octets look-alike where none may stand)
+              '30020000', '31020000', '30050201050000', '30050000020105', 'a00430020000', '3080300200000000', '310731050201050000',
+              '30040000 0000'.replace(' ', ''), 'a0020000', '3006300200000500'):
         data = bytes.fromhex(h)
         rep.case('corpus ' + h)
         check_input(rep, drv, data, specs, tier)
